@@ -49,6 +49,12 @@ func NewTagCmd(v *viper.Viper) (*cobra.Command, error) {
 	flags.Bool("dry-run", true, "print, but do not perform, any actions")
 
 	viper.BindPFlag("dry-run", flags.Lookup("dry-run"))
+	// The Tagger is unmarshalled from v, not from the global viper instance,
+	// so the flag has to be bound to v for --dry-run (and its default of
+	// true) to have any effect.
+	if err := v.BindPFlag("dry-run", flags.Lookup("dry-run")); err != nil {
+		return nil, err
+	}
 
 	return cmd, nil
 }
